@@ -8,8 +8,8 @@
    distributions with a lambda-dependent singular part) and everything neutral-current (LeProHQ, third party): those are
    compared on real runs only. *)
 From Coq Require Import Reals ZArith List Bool String.
-From Yad Require Import Base Couplings Weights Combiner FFN0Theorems Expr GluonLimit QuarkLimit.
-From YadGen Require Import InstKernels.
+From Yad Require Import Base Couplings Weights Combiner FFN0Theorems Expr SpecNLO GluonLimit QuarkLimit QuarkNLOLimit.
+From YadGen Require Import InstKernels Kernels.
 Import ListNotations.
 
 Theorem C08_heavy_pairing_cc (fld : Fld) gw prc rest inv k nf pto ihq ks ks' : prc = CC ->
@@ -76,3 +76,36 @@ Theorem C08_quark_LO_F3 (f : R -> R) (L : R) : (forall u v, Rabs (f u - f v) <= 
   <= (1 - l) * (2 * L).
 Proof. exact (quark_lo_F3 f L). Qed.
 Print Assumptions C08_quark_LO_F3.
+
+(* ---------------- the quark channel at NLO, POINTWISE in z (QuarkNLOLimit.v): for every fixed z in (0,1) the regular and the
+   singular part of the massive coefficient function converge to those of the massless NLO quark coefficient function used by the
+   asymptotic calculation (regular parts: the regenerated light/nlo kernels; singular parts: the (D0, D1) coefficients of SpecNLO, which C04
+   proves equal to the code's), remainder (1-lambda) A(z).
+   PARTIAL: A(z) grows like (1-z)^-3, so this is not yet the convergence of the plus distribution against a PDF; the local part
+   (dilogarithms) is not covered. *)
+Theorem C08_quark_NLO_F2_reg_partial sp z l : 0 < z < 1 -> 1 / 2 <= l < 1 ->
+  Rabs (eval sp ik_heavy_f2_cc_NonSinglet_NLO_reg z [l] - eval sp k_light_nlo_f2_ns_reg z []) <= (1 - l) * (2 * CF * (4 + 5 / (1 - z))).
+Proof. exact (quark_f2_reg_limit_gen sp z l). Qed.
+Print Assumptions C08_quark_NLO_F2_reg_partial.
+Theorem C08_quark_NLO_F2_sing_partial sp z l : 0 < z < 1 -> 1 / 2 <= l < 1 ->
+  Rabs (eval sp ik_heavy_f2_cc_NonSinglet_NLO_sing z [l] - c2q1_sing z) <= (1 - l) * A2sing z.
+Proof. exact (quark_f2_sing_limit sp z l). Qed.
+Print Assumptions C08_quark_NLO_F2_sing_partial.
+Theorem C08_quark_NLO_F3_reg_partial sp z l : 0 < z < 1 -> 1 / 2 <= l < 1 ->
+  Rabs (eval sp ik_heavy_f3_cc_NonSinglet_NLO_reg z [l] - eval sp k_light_nlo_f3_ns_reg z [])
+  <= (1 - l) * (2 * CF * (4 + 3 / (1 - z)) + Rabs (eval sp k_light_nlo_f3_ns_reg z [])).
+Proof. exact (quark_f3_reg_limit_gen sp z l). Qed.
+Print Assumptions C08_quark_NLO_F3_reg_partial.
+Theorem C08_quark_NLO_F3_sing_partial sp z l : 0 < z < 1 -> 1 / 2 <= l < 1 ->
+  Rabs (eval sp ik_heavy_f3_cc_NonSinglet_NLO_sing z [l] - c2q1_sing z) <= (1 - l) * (A2sing z + Rabs (c2q1_sing z)).
+Proof. exact (quark_f3_sing_limit sp z l). Qed.
+Print Assumptions C08_quark_NLO_F3_sing_partial.
+Theorem C08_quark_NLO_FL_reg_partial sp z l : 0 < z < 1 -> 1 / 2 <= l < 1 ->
+  Rabs (eval sp ik_heavy_fl_cc_NonSinglet_NLO_reg z [l] - eval sp k_light_nlo_fl_ns_reg z [])
+  <= (1 - l) * (2 * CF * (5 + 2 / (1 - z) + 2 * (- ln z) / (1 - z) + 6 * (- ln (1 - z)))).
+Proof. exact (quark_fl_reg_limit_gen sp z l). Qed.
+Print Assumptions C08_quark_NLO_FL_reg_partial.
+Theorem C08_quark_NLO_FL_sing_partial sp z l : 0 < z < 1 -> 1 / 2 <= l < 1 ->
+  Rabs (eval sp ik_heavy_fl_cc_NonSinglet_NLO_sing z [l]) <= (1 - l) * (Rabs (c2q1_sing z) + A2sing z / 2).
+Proof. exact (quark_fl_sing_limit sp z l). Qed.
+Print Assumptions C08_quark_NLO_FL_sing_partial.
